@@ -469,7 +469,8 @@ func cmdCheck(args []string) {
 	}
 	// evidence
 	wall := time.Since(t0).Seconds()
-	if !*noEvidence {
+	if !*noEvidence && !*writeBaseline {
+		// a baseline-writing run is judged against the baseline it replaces: its counts are not a record of the tree
 		writeEvidence(eng, *verif, id, *tier, seed, &cfg, results, groups, order, baseline, known, nClaimed, nProved, nUndecided, nKnown, undecidedNames, violations, wall, loadS, genS, solveS)
 	}
 	if *verbose {
